@@ -145,16 +145,16 @@ Proof.
   - destruct (N.eqb_spec sp (top lvl)) as [->|Hne].
     + rewrite N.eqb_refl. reflexivity.
     + destruct (N.eqb_spec (k * sp) (k * top lvl)) as [He|_]; [|reflexivity].
-      apply N.mul_cancel_l in He; [contradiction|lia].
+      nia.
   - destruct (N.eqb_spec sp (top lvl)) as [->|Hne].
     + rewrite N.eqb_refl. reflexivity.
     + destruct (N.eqb_spec (k * sp) (k * top lvl)) as [He|_].
-      { apply N.mul_cancel_l in He; [contradiction|lia]. }
+      { nia. }
       destruct (N.ltb_spec (top lvl) sp) as [Hlt|Hge].
-      * destruct (N.ltb_spec (k * top lvl) (k * sp)) as [_|Hc]; [|apply N.mul_le_mono_pos_l in Hc; lia].
+      * destruct (N.ltb_spec (k * top lvl) (k * sp)) as [_|Hc]; [|nia].
         change (k * sp :: map (N.mul k) lvl) with (map (N.mul k) (sp :: lvl)). rewrite IH.
         destruct (loop f sp (sp :: lvl)) as [[l o]| |]; reflexivity.
-      * destruct (N.ltb_spec (k * top lvl) (k * sp)) as [Hc|_]; [apply N.mul_lt_mono_pos_l in Hc; lia|].
+      * destruct (N.ltb_spec (k * top lvl) (k * sp)) as [Hc|_]; [nia|].
         destruct lvl as [|x t]; [reflexivity|]. cbn [map]. rewrite IH.
         destruct (loop f sp t) as [[l o]| |]; reflexivity.
 Qed.
@@ -162,7 +162,7 @@ Qed.
 Lemma effect_scale T k s r : effect T (scale_st k s) (scale_raw k r) = scale_st k (effect T s r).
 Proof.
   unfold effect. cbn [ty scale_raw]. destruct (lookup (ty r) (t_actions T)) as [a|]; [|reflexivity].
-  unfold scale_st. cbn [level spaces nl width]. f_equal. destruct (a_sp a); lia.
+  unfold scale_st. cbn [level spaces nl width]. f_equal. destruct (a_sp a); cbn [scale_raw width]; lia.
 Qed.
 
 (* the loop produces synthetic tokens only *)
